@@ -673,6 +673,10 @@ def oracle(c, imp, real):
             fails.append("%s: a bound of the where clause was lost: %r vs %r" % (n, r["where"], iw))
         elif any(b not in MODEL_BOUNDS for _, b in extra):
             fails.append("%s: bounds added beyond Send/Sync/'static: %r" % (n, extra))
+        elif extra and kind in ("val", "static"):
+            # the thread-safety bounds are what a MESSAGE needs: a self-consuming call runs the user's method on the caller's own thread once the
+            # actor is handed back, a static one never touches the actor -- nothing of theirs crosses the channel
+            fails.append("%s: bounds %r added to a %s method, whose arguments never cross the channel (the model needs none)" % (n, extra, "self-consuming" if kind == "val" else "static"))
     return fails
 
 
